@@ -73,12 +73,13 @@ func init() {
 		ID: "C26",
 		Explanation: "Decides the structural argument behind C26: (ONE-TX) every operation of the store executes at most one bbolt transaction on any path, so each operation takes effect atomically at its transaction (bbolt serialises transactions); (STATELESS-SERVICE) the daemon's RPC handlers keep no state of their own - no handler writes a field of the service and each forwards to exactly one store operation - so the service adds no interleavings of its own. The client's reconnect logic, gob encoding and real interleavings are not decided.",
 		NotCovered:  "client-side reconnect races, RPC transport, real schedules",
-		Rules:       []string{"ONE-TX", "STATELESS-SERVICE"},
-		Patterns:    []string{"./pkg/store/...", "./pkg/daemon/..."},
-		Run:         runC26,
-		MinCounts:   map[string]int{"ONE-TX": 8, "STATELESS-SERVICE": 8},
+		Rules:       []string{"ONE-TX", "STATELESS-SERVICE", "REPLY-FRESH: the argument and reply objects of an RPC request are made by reflect.New when the request is read, never shared between requests"},
+		Patterns:    []string{"./pkg/store/...", "./pkg/daemon/...", "./pkg/rpc"},
+		Run:         func(p *core.Program, r *core.Report) { runC26(p, r); runReplyFresh(p, r) },
+		MinCounts:   map[string]int{"ONE-TX": 8, "STATELESS-SERVICE": 8, "REPLY-FRESH": 2},
 		Trusted:     append([]string{"bbolt serialises read-write transactions"}, trustedBase...),
 		Controls: []core.Control{
+			{Name: "reply-objects-from-a-shared-slot", Rule: "REPLY-FRESH", File: "pkg/rpc/server.go", Old: "\treplyv = reflect.New(mtype.ReplyType.Elem())\n", New: "\tif !lastReply.IsValid() || lastReply.Type() != mtype.ReplyType {\n\t\tlastReply = reflect.New(mtype.ReplyType.Elem())\n\t}\n\treplyv = lastReply\n", Edits: [][2]string{{"func (server *Server) readRequest(", "var lastReply reflect.Value\n\nfunc (server *Server) readRequest("}}, Fire: true, Want: "readRequest", Patterns: []string{"./pkg/rpc"}},
 			{Name: "service-caches-command-texts", Rule: "STATELESS-SERVICE", File: "pkg/daemon/service.go", Old: "func (s *service) DelCmd(req *api.DelCmdRequest, res *api.DelCmdResponse) error {\n", New: "func (s *service) DelCmd(req *api.DelCmdRequest, res *api.DelCmdResponse) error {\n\ts.version++\n", Fire: true, Want: "DelCmd", Patterns: []string{"./pkg/daemon"}},
 			{Name: "addcmd-split-into-view-and-update", Rule: "ONE-TX", File: "pkg/store/cmd.go", Old: "\terr = s.db.Update(func(tx *bolt.Tx) error {\n\t\tb := tx.Bucket([]byte(bucketCmd))\n\t\tseq, err = b.NextSequence()", New: "\ts.db.View(func(tx *bolt.Tx) error {\n\t\t_ = tx.Bucket([]byte(bucketCmd)).Sequence()\n\t\treturn nil\n\t})\n\terr = s.db.Update(func(tx *bolt.Tx) error {\n\t\tb := tx.Bucket([]byte(bucketCmd))\n\t\tseq, err = b.NextSequence()", Fire: true, Quick: true},
 			{Name: "service-caches-last-seq", Rule: "STATELESS-SERVICE", File: "pkg/daemon/service.go", Old: "\tseq, err := s.store.AddCmd(req.Text)\n\tres.Seq = seq", New: "\tseq, err := s.store.AddCmd(req.Text)\n\ts.version = seq\n\tres.Seq = seq", Fire: true, Quick: true},
@@ -88,15 +89,23 @@ func init() {
 		ID: "C27",
 		Explanation: "Decides two structural clauses of C27: (REMOVE-OWN) the daemon removes the socket file only on paths where its own net.Listen on that very path succeeded (a daemon that failed to listen never deletes another daemon's socket); (SERVE-WHILE-CLIENTS) every exit of the serve loop other than the signal case is taken only when the set of live client connections is empty, and that set is modified only by the loop itself. The cross-process races of activation (stale socket removal versus a starting daemon) are not statically decidable here and are not claimed.",
 		NotCovered:  "all cross-process interleavings of activation, spawn and stale-socket handling",
-		Rules:       []string{"REMOVE-OWN", "SERVE-WHILE-CLIENTS"},
+		Rules:       []string{"REMOVE-OWN", "SERVE-WHILE-CLIENTS", "RECV-CLOSED-ONCE: a select in a loop stops selecting on (or leaves the loop after) a receive case whose channel some goroutine closes", "UNLINK-ONCE: a function that removes the path of the unix socket it listens on tells the listener not to unlink on Close", "STALE-ONLY-REFUSED: the status on which activation removes the socket file is returned only on the success edge of errors.Is(err, ECONNREFUSED)"},
 		Patterns:    []string{"./pkg/daemon/..."},
 		Run: func(p *core.Program, r *core.Report) {
 			runC27(p, r)
 			runLenKey(p, r, "SERVE-WHILE-CLIENTS", pkgDaemon)
+			runRecvClosedOnce(p, r, pkgDaemon)
+			runUnlinkOnce(p, r, pkgDaemon)
+			runStaleOnlyRefused(p, r, pkgDaemon)
 		},
-		MinCounts:   map[string]int{"REMOVE-OWN": 1, "SERVE-WHILE-CLIENTS": 2},
+		MinCounts:   map[string]int{"REMOVE-OWN": 1, "SERVE-WHILE-CLIENTS": 2, "RECV-CLOSED-ONCE": 1, "UNLINK-ONCE": 1, "STALE-ONLY-REFUSED": 1},
 		Trusted:     trustedBase,
 		Controls: []core.Control{
+			{Name: "stale-socket-on-any-temporary-error", Rule: "STALE-ONLY-REFUSED", File: "pkg/daemon/activate.go", Old: "\t\tif errors.Is(err, errConnRefused) {", New: "\t\tif errors.Is(err, errConnRefused) || errors.Is(err, os.ErrDeadlineExceeded) {", Fire: true, Want: "detectDaemon"},
+			{Name: "benign-refused-test-inverted", Rule: "STALE-ONLY-REFUSED", File: "pkg/daemon/activate.go", Old: "\t\tif errors.Is(err, errConnRefused) {\n\t\t\treturn connectionRefused, err\n\t\t}\n\t\treturn connectionOtherError, err", New: "\t\tif !errors.Is(err, errConnRefused) {\n\t\t\treturn connectionOtherError, err\n\t\t}\n\t\treturn connectionRefused, err", Fire: false},
+			{Name: "revert-fix-spin-on-closed-error-channel", Rule: "RECV-CLOSED-ONCE", File: "pkg/daemon/server.go", Old: "\t\tcase err := <-acceptErrCh:\n\t\t\tacceptErrCh = nil\n", New: "\t\tcase err := <-listenErrCh:\n", Edits: [][2]string{{"\tacceptErrCh := listenErrCh\n", ""}}, Fire: true, Want: "select case"},
+			{Name: "revert-fix-listener-close-unlinks-again", Rule: "UNLINK-ONCE", File: "pkg/daemon/server.go", Old: "\tif ul, ok := listener.(*net.UnixListener); ok {\n\t\tul.SetUnlinkOnClose(false)\n\t}\n", New: "", Fire: true, Want: "removes the path"},
+			{Name: "benign-error-channel-disabled-later-in-the-case", Rule: "RECV-CLOSED-ONCE", File: "pkg/daemon/server.go", Old: "\t\t\tacceptErrCh = nil\n\t\t\tlogger.Println(\"could not listen:\", err)\n", New: "\t\t\tlogger.Println(\"could not listen:\", err)\n\t\t\tacceptErrCh = nil\n", Fire: false},
 			{Name: "remove-socket-when-listen-failed", Rule: "REMOVE-OWN", File: "pkg/daemon/server.go", Old: "\t\tlogger.Printf(\"failed to listen on %s: %v\", sockpath, err)\n\t\tlogger.Println(\"aborting\")\n\t\treturn 2", New: "\t\tlogger.Printf(\"failed to listen on %s: %v\", sockpath, err)\n\t\tlogger.Println(\"aborting\")\n\t\tos.Remove(sockpath)\n\t\treturn 2", Fire: true, Quick: true},
 			{Name: "connections-numbered-by-table-size", Rule: "SERVE-WHILE-CLIENTS", File: "pkg/daemon/server.go", Old: "\tconns := make(map[net.Conn]struct{})\n", New: "\tconns := make(map[net.Conn]struct{})\n\tnumbered := map[int]net.Conn{}\n\tdefer func() { delete(numbered, 0) }()\n", Edits: [][2]string{{"\t\t\tconns[conn] = struct{}{}\n", "\t\t\tconns[conn] = struct{}{}\n\t\t\tnumbered[len(numbered)+1] = conn\n"}}, Fire: true, Want: "identifies the entry"},
 			{Name: "exit-with-clients-on-conn-done", Rule: "SERVE-WHILE-CLIENTS", File: "pkg/daemon/server.go", Old: "\t\t\tdelete(conns, conn)\n\t\t\tif len(conns) == 0 {\n\t\t\t\tlogger.Println(\"all clients disconnected, exiting\")\n\t\t\t\tbreak loop\n\t\t\t}", New: "\t\t\tdelete(conns, conn)\n\t\t\tlogger.Println(\"a client disconnected, exiting\")\n\t\t\tbreak loop", Fire: true, Quick: true},
